@@ -255,9 +255,26 @@ LATT = [k / 2 for k in range(0, 7)]
 class P(Prop):
     id = "C08"
     design_ref = "DESIGN.md section 5, C08 and appendix A.3"
-    theorems = []
+    M = "TracklibVerif.Props.C08"
+    theorems = [
+        (M, "TV.C08.straddle_necessary", "two closed segments sharing a point pass isSegmentIntersects (val1 <= 0 and val2 <= 0), touching ends and zero-length segments included"),
+        (M, "TV.C08.cells_complete", "a point P of segment [c1,c2] with i <= Px < i+1, j <= Py < j+1 implies (i,j) in __cellsCrossSegment(c1,c2)"),
+        (M, "TV.C08.index_complete", "after SpatialIndex(collection,res,margin>=0) returned, every point of every segment of feature k is inside the extent and the cell containing it lists k"),
+        (M, "TV.C08.point_query_complete", "request(q), q inside the extent, does not raise and returns every feature having a segment point in the cell containing q"),
+        (M, "TV.C08.segment_query_complete", "a returned request([Q1,Q2]) contains every feature listed in the cell of any point of the query segment"),
+        (M, "TV.C08.track_query_complete", "a returned request(track) contains every feature listed in the cell of any point of any segment of the query track"),
+        (M, "TV.C08.units_sound", "points at most d apart on each axis fall in cells whose column/row indices differ by at most groundDistanceToUnits(d) = floor(d/min(dX,dY)+1)"),
+        (M, "TV.C08.neighboringCells_square", "__neighboringcells(i,j,u) is exactly the Chebyshev square of radius u around (i,j) clipped to the grid"),
+        (M, "TV.C08.neighborhood_complete", "neighborhood(q, unit=groundDistanceToUnits(d)), q inside the extent, d >= 0, does not raise and returns every feature with a point within Euclidean distance d of q"),
+        (M, "TV.C08.isFloor_ratFloor", "Rat.floor, the driver's math.floor, satisfies the floor contract assumed by the theorems"),
+    ]
     partial = []
-    open_statements = []
+    open_statements = [
+        "theorems are over an ordered field with an exact floor: IEEE rounding in (x-xmin)/dX and in the straddle products is outside them (sampled by the flt stream with a 1e-7-cell guard)",
+        "segment_query_complete / track_query_complete are conditional on the request returning (a query touching the upper border of the extent raises IndexError: finding query-on-upper-border)",
+        "index_complete and the theorems built on it speak about constructor calls that return: with margin 0 none does (finding vertex-on-upper-border); thin extents with the default resolution raise ZeroDivisionError (finding default-resolution-thin-extent)",
+        "the unit = -1 incremental searches of neighborhood and the given-unit segment/track neighbourhoods are modelled and compared with the implementation, no theorem is stated about them (the property does not mention them)",
+    ]
     modelled = ("SpatialIndex.__init__ (extent from bbox + margin, explicit and default resolution), __getCell, "
                 "__cellsCrossSegment, __addSegment, addFeature, request (cell/point/segment/track), __neighboringcells, "
                 "neighborhood (cell/point/segment/track; unit >= 0 and the incremental unit = -1 search), "
